@@ -172,3 +172,154 @@ Proof.
     + unfold is_note in *. rewrite (tl_id _ _ Le). auto.
     + apply (response_none_le _ _ Le). auto.
 Qed.
+
+(** * C08.6 (queue form) what the stop does to the queue *)
+Lemma stop_queue_app q1 q2 : stop_queue (q1 ++ q2) = stop_queue q1 ++ stop_queue q2.
+Proof. unfold stop_queue. rewrite map_app, concat_app. reflexivity. Qed.
+
+Lemma stop_queue_cons b ms q : stop_queue ((b, ms) :: q) = map (fun m => (b, [m])) (filter keep_note ms) ++ stop_queue q.
+Proof. reflexivity. Qed.
+
+(* a message is retained, as a unit of its own, exactly if it is a valid notification of some queued record *)
+Lemma in_stop_queue q b m : In (b, [m]) (stop_queue q) <-> exists ms, In (b, ms) q /\ In m ms /\ keep_note m = true.
+Proof.
+  unfold stop_queue. split.
+  - intros Hin. apply in_concat in Hin as (l & Hl & Hin). apply in_map_iff in Hl as ([b0 ms] & <- & Hq).
+    apply in_map_iff in Hin as (m0 & E & Hm). cbn in E. injection E as <- <-.
+    apply filter_In in Hm as [Hm K]. exists ms. auto.
+  - intros (ms & Hq & Hm & K). apply in_concat. exists (map (fun m => (b, [m])) (filter keep_note ms)). split.
+    + apply in_map_iff. exists (b, ms). auto.
+    + apply in_map_iff. exists m. split; auto. apply filter_In. auto.
+Qed.
+
+(* order: the retained notifications are the queue's valid notifications, flattened in arrival order *)
+Definition queue_notes (q : list (bool * list jmsg)) : list jmsg := concat (map (fun bm => filter keep_note (snd bm)) q).
+
+Lemma stop_queue_order q : concat (map snd (stop_queue q)) = queue_notes q.
+Proof.
+  induction q as [|[b ms] q IH]; auto. rewrite stop_queue_cons, map_app, concat_app, IH.
+  unfold queue_notes. cbn. f_equal. induction (filter keep_note ms) as [|m r IHr]; cbn; auto. f_equal; auto.
+Qed.
+
+Lemma mk_task_ext a a0 u ids m : used a0 = used a -> c_builtin a0 = c_builtin a -> c_methods a0 = c_methods a ->
+  mk_task a0 u ids m = mk_task a u ids m.
+Proof. intros U B M. unfold mk_task, pre_err, assign_method. rewrite U, B, M. reflexivity. Qed.
+
+(* settling dequeues at most once, and only if the dispatcher was waiting for work *)
+Definition qsame (a b : state) : Prop := inq b = inq a /\ dp b <> DWaitWork.
+Definition qeq (a b : state) : Prop :=
+  inq b = inq a /\ tasks b = tasks a /\ units b = units a /\ used b = used a /\ running b = running a /\
+  c_builtin b = c_builtin a /\ c_methods b = c_methods a /\ dp b = dp a.
+
+Lemma settle_no_dequeue : forall fuel a acc b os, dp a <> DWaitWork -> settle fuel a acc = (b, os) ->
+  inq b = inq a /\ dp b <> DWaitWork /\ keeps_tasks a b.
+Proof.
+  induction fuel as [|f IH]; cbn; intros a acc b os D H.
+  - injection H as <- _. repeat split; auto. intros k t E; auto.
+  - destruct (settle1 a) as [[a1 os1]|] eqn:E; [|injection H as <- _; repeat split; auto; intros k t Ek; auto].
+    pose proof (settle1_keeps _ _ _ E) as K1. apply settle1_inv in E.
+    assert (X : inq a1 = inq a /\ dp a1 <> DWaitWork).
+    { destruct E; cbn; auto; try (split; auto; discriminate). congruence. }
+    destruct X as (Q1 & D1). destruct (IH _ _ _ _ D1 H) as (Q & Db & K). repeat split; auto; try congruence.
+    intros k t Ek. auto.
+Qed.
+
+Lemma dequeue_inq_nil a : inq a = [] -> inq (dequeue a) = [].
+Proof. intros Q. unfold dequeue. rewrite Q. destruct (running a); cbn; auto. Qed.
+
+Lemma settle1_inq a a1 os : settle1 a = Some (a1, os) -> inq a1 = inq a \/ (dp a = DWaitWork /\ a1 = dequeue a).
+Proof. intros H. apply settle1_inv in H. destruct H; cbn; auto. Qed.
+
+Lemma settle_inq_nil : forall fuel a acc b os, inq a = [] -> settle fuel a acc = (b, os) -> inq b = [].
+Proof.
+  induction fuel as [|f IH]; cbn; intros a acc b os Q H.
+  - injection H as <- _. auto.
+  - destruct (settle1 a) as [[a1 os1]|] eqn:E; [|injection H as <- _; auto].
+    eapply IH; [|exact H]. destruct (settle1_inq _ _ _ E) as [->|(_ & ->)]; auto. apply dequeue_inq_nil; auto.
+Qed.
+
+(* a waiting dispatcher with work takes it before anything else happens, except the reader's wake-up *)
+Lemma settle1_prio a a1 os : dp a = DWaitWork -> inq a <> [] -> settle1 a = Some (a1, os) ->
+  (exists f q, rd a = RIdle /\ ch_in a = f :: q /\ a1 = a <| rd := RHold f |> <| ch_in := q |>) \/ a1 = dequeue a.
+Proof.
+  intros D Q H. unfold settle1 in H. rewrite D in H.
+  assert (C : negb (running a) || negb (is_nil_list (inq a)) = true).
+  { destruct (inq a); [congruence|]. cbn. apply orb_true_r. }
+  rewrite C in H.
+  destruct (rd a) eqn:Rd; try (injection H as <- _; auto; fail).
+  destruct (ch_in a) as [|f q] eqn:Ch; injection H as <- _; auto.
+  left. exists f, q. auto.
+Qed.
+
+Lemma qeq_refl a : qeq a a.
+Proof. repeat split. Qed.
+Lemma qeq_trans a b d : qeq a b -> qeq b d -> qeq a d.
+Proof. unfold qeq. intuition congruence. Qed.
+
+Lemma settle_one_dequeue : forall fuel a acc b os, settle fuel a acc = (b, os) ->
+  (inq b = inq a /\ keeps_tasks a b) \/
+  (dp a = DWaitWork /\ exists a0, qeq a a0 /\ inq a0 <> [] /\ inq b = inq (dequeue a0) /\ keeps_tasks (dequeue a0) b).
+Proof.
+  induction fuel as [|f IH]; intros a acc b os H0; pose proof H0 as H; cbn in H.
+  - injection H as <- _. left. split; auto. intros k t E; auto.
+  - pose proof (settle_keeps _ _ _ _ _ H0) as Kab.
+    destruct (settle1 a) as [[a1 os1]|] eqn:E; [|injection H as <- _; left; split; auto].
+    assert (Nd : dp a <> DWaitWork -> inq b = inq a /\ keeps_tasks a b).
+    { intros D. destruct (settle_no_dequeue _ _ _ _ _ D H0) as (Q & _ & K). auto. }
+    destruct (dp a) eqn:D; try (left; apply Nd; discriminate).
+    destruct (inq a) as [|bm q] eqn:Q.
+    + (* waiting, nothing queued *)
+      left. split; auto. eapply settle_inq_nil; [|exact H].
+      destruct (settle1_inq _ _ _ E) as [->|(_ & ->)]; auto. apply dequeue_inq_nil; auto.
+    + (* waiting with work *)
+      destruct (settle1_prio a a1 os1 D) as [(f0 & q0 & Rd & Ch & ->)| ->]; [rewrite Q; discriminate|exact E| |].
+      * destruct (IH _ _ _ _ H) as [(Qb & K)|(D1 & a0 & Qe & Ne & Qb & K)].
+        -- left. split; auto. rewrite Qb. cbn. auto.
+        -- right. split; auto. exists a0. repeat split; auto; try apply Qe.
+      * assert (D1 : dp (dequeue a) <> DWaitWork) by (unfold dequeue; rewrite Q; destruct bm; cbn; discriminate).
+        destruct (settle_no_dequeue _ _ _ _ _ D1 H) as (Qb & _ & K). right. split; auto.
+        exists a. repeat split; auto. rewrite Q. discriminate.
+Qed.
+
+Lemma mk_task_method s u ids m : t_method (mk_task s u ids m) = j_method m /\ t_params (mk_task s u ids m) = j_params m.
+Proof.
+  unfold mk_task. destruct (pre_err s ids m); auto. destruct (is_nil (j_method m)); auto.
+  destruct (assign_method s (j_method m)); auto.
+Qed.
+
+Theorem notifications_kept c s l s' os : reach c s -> step s l = Some (s', os) -> running s = true -> running s' = false ->
+  kept_only (inq s') /\
+  (inq s' = stop_queue (inq s) \/
+   (dp s = DWaitWork /\ exists b m q, stop_queue (inq s) = (b, [m]) :: q /\ inq s' = q /\ keep_note m = true /\
+      exists t, nth_error (tasks s') (length (tasks s)) = Some t /\ t_unit t = length (units s) /\
+                t_method t = j_method m /\ t_params t = j_params m /\ retained_note t)).
+Proof.
+  intros R H Rn Rn'. pose proof (reach_reachf _ _ R) as Rf. pose proof (reachf_inv _ _ Rf) as I.
+  split; [apply (ic_q _ (i8_c _ (reachf_inv8 _ _ (step_reachf _ _ _ _ _ Rf H)))); auto|].
+  apply step_decompose in H as (C & s1 & os1 & Hr & Hs).
+  assert (Rn1 : running s1 = false).
+  { destruct Hs as [(_ & -> & _)|(_ & Hs)]; auto. destruct (settle_same5 _ _ _ _ _ Hs) as (A & _). congruence. }
+  destruct (stop_raw _ _ _ _ I Hr Rn Rn1) as (k0 & s0 & sx & _ & H0 & P & H1).
+  assert (F : inq s1 = stop_queue (inq s) /\ dp s1 = dp s /\ length (tasks s1) = length (tasks s) /\
+              units s1 = units s).
+  { assert (F0 : inq s0 = inq s /\ dp s0 = dp s /\ tasks s0 = tasks s /\ units s0 = units s)
+      by (destruct H0 as [->|(n & ->)]; auto).
+    destruct F0 as (F1 & F2 & F3 & F4). destruct P.
+    destruct H1 as [->|(_ & ->)]; cbn; repeat split; congruence. }
+  destruct F as (F1 & F2 & F3 & F4).
+  destruct Hs as [(_ & -> & _)|(C1 & Hs)]; [left; auto|].
+  destruct (settle_one_dequeue _ _ _ _ _ Hs) as [(Q & _)|(D & a0 & Qe & Ne & Qb & K)]; [left; congruence|].
+  right. split; [congruence|].
+  destruct Qe as (E1 & E2 & E3 & E4 & E5 & E6 & E7 & E8).
+  pose proof (stop_queue_kept (inq s)) as Kq. rewrite <- F1, <- E1 in Kq.
+  destruct (inq a0) as [|[b ms] q] eqn:Qa; [congruence|].
+  inversion Kq as [|x y (m & Em & Km) _]. subst. cbn in Em. subst ms.
+  exists b, m, q. split; [congruence|]. split.
+  { rewrite Qb. unfold dequeue. rewrite Qa. reflexivity. }
+  split; auto.
+  exists (mk_task a0 (length (units a0)) (map (fun m0 => fix_id (j_id m0)) [m]) m).
+  split; [|split; [rewrite mk_task_unit; congruence|]].
+  - apply K. unfold dequeue. rewrite Qa. cbn. rewrite <- F3, <- E2. apply nth_error_app_new.
+  - destruct (mk_task_method a0 (length (units a0)) (map (fun m0 => fix_id (j_id m0)) [m]) m) as (M1 & M2).
+    repeat split; auto; apply mk_task_retained; auto.
+Qed.
